@@ -621,6 +621,19 @@ func (ctx *fromJSONSchemaContext) convertAllOf(s *lib.Schema) (core.ZodSchema, e
 	for i := 2; i < len(schemas); i++ {
 		result = types.Intersection(result, schemas[i])
 	}
+
+	// An Intersection decides a nil input before its sides are asked: null is
+	// valid when every member admits it.
+	allAdmitNil := true
+	for _, member := range schemas {
+		if _, err := member.ParseAny(nil); err != nil {
+			allAdmitNil = false
+			break
+		}
+	}
+	if allAdmitNil {
+		return result.Nilable(), nil
+	}
 	return result, nil
 }
 
